@@ -184,6 +184,7 @@ type wsScenario struct {
 	Envs  []genEnv
 	Limit int64 // read limit of the receiving connection (0: the library's default)
 	Tag   string
+	Sig   string // known-finding signature of the scenario, if any
 }
 
 func classifyWsErr(err error) string {
@@ -322,6 +323,9 @@ func TestC19Ws(t *testing.T) {
 				ops[i] = a.Op
 			}
 			tags := []string{"ws:" + sc.Tag}
+			if sc.Sig != "" {
+				tags = append(tags, "sig:"+sc.Sig)
+			}
 			if bad != "" {
 				tags = append(tags, "ws-bad")
 			}
@@ -366,6 +370,18 @@ func TestC19Ws(t *testing.T) {
 			}
 		}
 		emit(wsScenario{Acts: acts, Envs: group, Limit: -1, Tag: "envelopes"})
+	}
+
+	// (1b) the receiving connection as the library hands it out (read limit 32768): a body just below the
+	// limit travels, one above it does not (known finding: NewGoatOverWebsocket leaves the limit to its caller)
+	for _, n := range []int{30000, 40000} {
+		b, big := genBody(r, n)
+		g := genEnv{E: &Rpc{Id: 3, Header: &goatorepo.RequestHeader{Method: "/s/m", Source: "a"}, Body: &goatorepo.Body{Data: b}}, Big: big}
+		sig := ""
+		if n > 32768 {
+			sig = "ws-default-read-limit"
+		}
+		emit(wsScenario{Acts: []wsAct{{Op: "W", E: 0}, {Op: "R"}}, Envs: []genEnv{g}, Limit: 0, Tag: "default-read-limit", Sig: sig})
 	}
 
 	// (2) every short sequence over the action alphabet
